@@ -18,6 +18,7 @@ import (
 	"sort"
 	"strings"
 	"sync"
+	"syscall"
 	"time"
 
 	"vh/core"
@@ -45,12 +46,14 @@ type c13Group struct {
 }
 
 var c13Groups = []c13Group{
-	{"pkgdir-rel", false, false},  // cwd = package dir, "setup.go"
-	{"modroot-rel", false, false}, // cwd = module root, "<pkg>/setup.go"
-	{"sibling-rel", false, false}, // cwd = sibling dir, "../<pkg>/setup.go"
-	{"abs-inside", false, false},  // absolute path, cwd = another directory of the same module
-	{"abs-outside", false, false}, // absolute path, cwd = a directory outside the module
-	{"write", true, false},        // cwd = package dir of a private copy, "setup.go", really writing
+	{"pkgdir-rel", false, false},      // cwd = package dir, "setup.go"
+	{"modroot-rel", false, false},     // cwd = module root, "<pkg>/setup.go"
+	{"sibling-rel", false, false},     // cwd = sibling dir, "../<pkg>/setup.go"
+	{"abs-inside", false, false},      // absolute path, cwd = another directory of the same module
+	{"abs-outside", false, false},     // absolute path, cwd = a directory outside the module
+	{"abs-modroot", false, false},     // absolute path, cwd = module root (an ancestor of the input file)
+	{"abs-via-symlink", false, false}, // absolute path that runs through a symbolic link to the module root, cwd outside the module
+	{"write", true, false},            // cwd = package dir of a private copy, "setup.go", really writing
 	// really writing with -log; the first and the last process of this group are started at least 1.1 s
 	// apart (different wall-clock seconds), with everything else of the scenario in between
 	{"write-log", true, true},
@@ -69,6 +72,10 @@ func (g c13Group) spec(root, outside string, sc *c13Scen) (args []string, dir, s
 		spelling, dir = abs, filepath.Join(root, "ext")
 	case "abs-outside":
 		spelling, dir = abs, outside
+	case "abs-modroot":
+		spelling, dir = abs, root
+	case "abs-via-symlink":
+		spelling, dir = filepath.Join(root+"-lnk", sc.SetupRel), outside
 	default:
 		spelling, dir = base, filepath.Join(root, sc.PkgRel)
 	}
@@ -221,6 +228,7 @@ func c13HandScenarios() []*c13Scen {
 
 type c13EnvPool struct {
 	homes, tmps []string
+	otherFS     string // TMPDIR candidate on another file system ("" = none available)
 }
 
 func c13NewEnvPool(e *core.Env) c13EnvPool {
@@ -234,6 +242,23 @@ func c13NewEnvPool(e *core.Env) c13EnvPool {
 		d := filepath.Join(e.Work, n)
 		_ = os.MkdirAll(d, 0o755)
 		p.tmps = append(p.tmps, d)
+	}
+	// a temporary directory on ANOTHER file system than the sources (a rename from there fails with EXDEV)
+	var here syscall.Stat_t
+	if syscall.Stat(e.Work, &here) == nil {
+		for _, cand := range []string{"/dev/shm", os.Getenv("XDG_RUNTIME_DIR"), "/run"} {
+			var st syscall.Stat_t
+			if cand == "" || syscall.Stat(cand, &st) != nil || st.Dev == here.Dev {
+				continue
+			}
+			d, err := os.MkdirTemp(cand, "vchk-c13-")
+			if err != nil {
+				continue
+			}
+			p.tmps = append(p.tmps, d, d) // drawn twice as often as each of the others
+			p.otherFS = d
+			break
+		}
 	}
 	return p
 }
@@ -278,6 +303,7 @@ func c13Normalise(s, root, setupRel, spelling string) string {
 		s = strings.ReplaceAll(s, gen(spelling), "<OUTPUT>")
 		s = strings.ReplaceAll(s, spelling, "<INPUT>")
 	}
+	s = strings.ReplaceAll(s, root+"-lnk", "<ROOT>") // the symbolic link to the module root (group abs-via-symlink)
 	return strings.ReplaceAll(s, root, "<ROOT>")
 }
 
@@ -339,8 +365,8 @@ func c13FirstDiffLine(a, b string) string {
 func RunC13(e *core.Env) int {
 	rep := core.NewReport(e, "exploration",
 		"scenarios = seeded broad setups (accepted and rejected), a many-methods/many-converters/many-no-match profile, setups with two converter interfaces, setups with an injected bad notation, "+
-			"and fixed setups whose import table holds two paths with the same last element (blank/named/aliased/duplicated); each scenario is run in N fresh processes (quick 12, thorough 40) over seven groups "+
-			"(package dir + relative path, module root + relative path, sibling dir + ../ path, absolute path from inside the module, absolute path from outside the module, really writing runs on private copies, "+
+			"and fixed setups whose import table holds two paths with the same last element (blank/named/aliased/duplicated); each scenario is run in N fresh processes (quick 12, thorough 40) over nine groups "+
+			"(package dir + relative path, module root + relative path, sibling dir + ../ path, absolute path from inside the module, absolute path from outside the module, absolute path from the module root, absolute path through a symbolic link to the module root, really writing runs on private copies, "+
 			"really writing runs with -log whose first and last process are started in different wall-clock seconds) "+
 			"with HOME, TMPDIR, LANG, TZ, GOMAXPROCS and unrelated variables varied, a third of the scenarios with all processes started concurrently. "+
 			"A case is (scenario, group); it is counted distinct/non-trivial by (hash of the scenario sources, group) when at least two tuples were actually compared for it (within the group or against the reference group) and the run produced either generated functions or diagnostics")
@@ -348,11 +374,15 @@ func RunC13(e *core.Env) int {
 		"for -dry -print runs the output bytes are stdout; for writing runs the bytes at the output path; the two kinds are compared among themselves only (different flags)",
 		"only the module root / input path spelling is normalised in stderr before the cross-group comparison")
 	thorough := e.Tier == "thorough"
-	nScen, perGroup := 400, []int{3, 2, 2, 2, 1, 2, 2}
+	nScen, perGroup := 400, []int{3, 2, 2, 2, 1, 1, 1, 2, 2}
 	if thorough {
-		nScen, perGroup = 1500, []int{10, 6, 6, 6, 4, 8, 4}
+		nScen, perGroup = 1500, []int{10, 6, 6, 6, 4, 3, 3, 8, 4}
 	}
 	pool := c13NewEnvPool(e)
+	if pool.otherFS != "" {
+		defer os.RemoveAll(pool.otherFS)
+	}
+	rep.Extra("tmpdir_on_another_file_system", pool.otherFS != "")
 	outside := filepath.Join(e.Work, "outside-cwd")
 	_ = os.MkdirAll(outside, 0o755)
 
@@ -380,6 +410,8 @@ func RunC13(e *core.Env) int {
 		sc := scs[si]
 		root := filepath.Join(e.Work, fmt.Sprintf("c13-%04d", si))
 		defer os.RemoveAll(root)
+		_ = os.Symlink(filepath.Base(root), root+"-lnk")
+		defer os.Remove(root + "-lnk")
 		if err := c13Materialise(root, sc); err != nil {
 			rep.Inconclusive("materialise: " + err.Error())
 			return
@@ -575,7 +607,8 @@ func RunC13(e *core.Env) int {
 				switch {
 				case ref.Exit != b.Exit:
 					what = "exit"
-				case !g.Write && ref.Out != b.Out:
+				case !g.Write && ref.Out != b.Out && norm(ref, ref.Out) != norm(b, b.Out):
+					// (stdout of a -dry -print run may carry a positioned notice; its path follows the spelling)
 					what = "output"
 				case norm(ref, ref.Stderr) != norm(b, b.Stderr):
 					what = "stderr"
@@ -608,6 +641,43 @@ func RunC13(e *core.Env) int {
 						sc.ID, sc.Kind, g.Name, c13Groups[0].Name, what, b.Exit, ref.Exit, diff),
 					Files: files(ref, b, c13Groups[0], g)})
 			}
+		}
+		// groups that spell the input IDENTICALLY (the absolute path) and differ only in the working
+		// directory: nothing to normalise, the tuples must be byte-identical
+		var absRef *c13Obs
+		var absRefG c13Group
+		for gi, g := range c13Groups {
+			if !(g.Name == "abs-inside" || g.Name == "abs-outside" || g.Name == "abs-modroot") || !groupOK[gi] || len(byGroup[gi]) == 0 {
+				continue
+			}
+			b := byGroup[gi][0]
+			if absRef == nil {
+				absRef, absRefG = b, g
+				continue
+			}
+			what := ""
+			switch {
+			case absRef.Exit != b.Exit:
+				what = "exit"
+			case absRef.Out != b.Out:
+				what = "output"
+			case absRef.Stderr != b.Stderr:
+				what = "stderr"
+			}
+			rep.Count("same_spelling_different_cwd_compared", 1)
+			if what == "" {
+				continue
+			}
+			diff := c13FirstDiffLine(absRef.Stderr, b.Stderr)
+			if what == "output" {
+				diff = c13FirstDiffLine(absRef.Out, b.Out)
+			}
+			rep.Violate(&core.Violation{Property: "C13", Monitor: "cwd", Symptom: "same-spelling-differs-by-cwd",
+				Features: map[string]string{"what": what, "kind": sc.Kind, "group": g.Name, "exits": fmt.Sprintf("%d,%d", absRef.Exit, b.Exit)},
+				Case:     sc.ID + "/" + g.Name,
+				Detail: fmt.Sprintf("scenario %s (%s): the same absolute input path run from two working directories (groups %s and %s) differs in %s\n%s",
+					sc.ID, sc.Kind, absRefG.Name, g.Name, what, diff),
+				Files: files(absRef, b, absRefG, g)})
 		}
 		rep.Histo("scenario_kind", sc.Kind)
 		rep.Histo("reference_exit", fmt.Sprint(ref.Exit))
